@@ -8,6 +8,7 @@ import (
 	"strings"
 
 	"golang.org/x/tools/go/packages"
+	"golang.org/x/tools/go/ssa"
 )
 
 // C08 lookup-result-nil-checked (added after a seeded change was missed): Scope.Lookup and Scope.LookupParent answer
@@ -449,4 +450,37 @@ func (w *lookupWalk) stmt(s ast.Stmt, safe map[types.Object]bool) {
 			w.stmts(cl.Body, copyFacts(safe))
 		}
 	}
+}
+
+// isRecoveredValue: v is the result of the recover() builtin, possibly through interface conversions or phis of it.
+func isRecoveredValue(v ssa.Value) bool {
+	seen := map[ssa.Value]bool{}
+	var rec func(v ssa.Value) bool
+	rec = func(v ssa.Value) bool {
+		if v == nil || seen[v] {
+			return false
+		}
+		seen[v] = true
+		switch x := v.(type) {
+		case *ssa.Call:
+			if bi, ok := x.Call.Value.(*ssa.Builtin); ok && bi.Name() == "recover" {
+				return true
+			}
+		case *ssa.ChangeInterface:
+			return rec(x.X)
+		case *ssa.MakeInterface:
+			return rec(x.X)
+		case *ssa.TypeAssert:
+			return rec(x.X)
+		case *ssa.Phi:
+			for _, e := range x.Edges {
+				if !rec(e) {
+					return false
+				}
+			}
+			return len(x.Edges) > 0
+		}
+		return false
+	}
+	return rec(v)
 }
